@@ -1,6 +1,7 @@
 import RxModel.Gen.Prelude
 import RxModel.Ops.Single
 import RxModel.Ops.Init
+import RxModel.Ops.Multi
 /-!
   Shared by the tie theorems (`RxModel/GenTie/*.lean`): each one states that an observer GENERATED from
   `/repo/src` by `rs2lean` is, method by method and for every state and argument, the machine of the
